@@ -4,6 +4,7 @@ import DaskModel.Model.Order
 import DaskModel.Model.TaskTermIO
 import DaskModel.Model.LegacyOpt
 import DaskModel.Model.Rename
+import DaskModel.Model.Pickle
 open Dask
 
 namespace GraphDrv
@@ -106,6 +107,33 @@ def hAliasInit : Handler := handler fun
     pure (mkAlias (← Obj.ofSExp? k) t).toSExp
   | _ => none
 
+def attrs? (e : SExp) : Option Dask.Pickle.Attrs := do
+  (← e.toList?).mapM fun
+    | .list [.str s, v] => do some (s, ← Obj.ofSExp? v)
+    | _ => none
+
+def ofAttrs (a : Dask.Pickle.Attrs) : SExp := .list (a.map fun (s, v) => .list [.str s, v.toSExp])
+
+/-- `(task_roundtrip attrs)` / `(container_roundtrip ctor attrs)`: slot values after `loads(dumps(node))` -/
+def hTaskRoundtrip : Handler := handler fun
+  | [a] => do
+    match Dask.Pickle.taskRoundtrip (← attrs? a) with
+    | some r => pure (.list [.sym "ok", ofAttrs r])
+    | none => pure (.list [.sym "raised"])
+  | _ => none
+
+def hContainerRoundtrip : Handler := handler fun
+  | [c, a] => do
+    match Dask.Pickle.containerRoundtrip (← Obj.ofSExp? c) (← attrs? a) with
+    | some r => pure (.list [.sym "ok", ofAttrs r])
+    | none => pure (.list [.sym "raised"])
+  | _ => none
+
+def hSlots : Handler := handler fun
+  | [.sym "task"] => pure (.list (Dask.Generated.TaskSpecSlots.slotsTask.map .str))
+  | [.sym "container"] => pure (.list (Dask.Generated.TaskSpecSlots.slotsNestedContainer.map .str))
+  | _ => none
+
 def hLegacyRefs : Handler := handler fun
   | [keys, o] => do pure (.list ((legacyRefs (← objs? keys) (← Obj.ofSExp? o)).map Obj.toSExp))
   | _ => none
@@ -178,6 +206,8 @@ def table : List (String × Handler) :=
    ("convert", TermDrv.hConvert), ("convert_graph", TermDrv.hConvertGraph), ("core_get", TermDrv.hCoreGet),
    ("legacy_get", TermDrv.hLegacyGet), ("eval_node", TermDrv.hEvalNode), ("deps", TermDrv.hDeps),
    ("exec_graph", TermDrv.hExecGraph), ("legacy_refs", TermDrv.hLegacyRefs), ("alias_init", TermDrv.hAliasInit),
+   ("task_roundtrip", TermDrv.hTaskRoundtrip), ("container_roundtrip", TermDrv.hContainerRoundtrip),
+   ("slots", TermDrv.hSlots),
    ("subs", TermDrv.hSubs), ("cull", TermDrv.hCull),
    ("clone_legacy", TermDrv.hCloneLegacy), ("clone_spec", TermDrv.hCloneSpec),
    ("checkpoint_reduce", TermDrv.hCheckpointReduce)]
